@@ -521,7 +521,12 @@ fn valid_line(line: &str) -> String {
         _ => return format!("(mk_vcase {st} VSerFail)"),
     };
     let hex_back = match guarded(|| serde_json::from_str::<U256Wrapper>(&hex)) {
-        Ok(Ok(v)) => format!("(Some {})", u256_term(&v.0)),
+        Ok(Ok(v))
+            if matches!(guarded(|| serde_json::from_reader::<_, U256Wrapper>(std::io::Cursor::new(hex.as_bytes()))), Ok(Ok(w)) if w.0 == v.0)
+                && matches!(guarded(|| serde_json::from_value::<U256Wrapper>(serde_json::Value::String(hex.trim_matches('"').to_string()))), Ok(Ok(w)) if w.0 == v.0) =>
+        {
+            format!("(Some {})", u256_term(&v.0))
+        }
         _ => "None".to_string(),
     };
     let text = match guarded(|| serde_json::to_string(&slot)) {
@@ -539,7 +544,12 @@ fn valid_line(line: &str) -> String {
             let eq = *b == slot;
             // a second serialisation must give the same text (covers the payloads PartialEq ignores)
             let again = guarded(|| serde_json::to_string(b));
-            (eq, matches!(again, Ok(Ok(t2)) if t2 == text))
+            // the same text through serde_json's other entry points (a layout file is read with `from_reader`, an embedded
+            // layout with `from_value`; both hand the visitor transient rather than borrowed strings)
+            let others = matches!(guarded(|| serde_json::from_slice::<StorageSlot>(text.as_bytes())), Ok(Ok(x)) if x == slot)
+                && matches!(guarded(|| serde_json::from_reader::<_, StorageSlot>(std::io::Cursor::new(text.as_bytes()))), Ok(Ok(x)) if x == slot)
+                && matches!(guarded(|| serde_json::from_str::<serde_json::Value>(&text).and_then(serde_json::from_value::<StorageSlot>)), Ok(Ok(x)) if x == slot);
+            (eq && others, matches!(again, Ok(Ok(t2)) if t2 == text))
         }
         _ => (false, false),
     };
